@@ -424,6 +424,14 @@ def check_case(case, ctx):
                 ctx.cls("hit:%s:%s" % (k, str(coding).lower()))
             if obs_r != obs_t and not real.failed and not twin.failed:
                 what = "result" if obs_r[0] != obs_t[0] else "state"
+                if (what == "state" and not direct and obs_r[1][:2] == obs_t[1][:2] and obs_r[1][2] == ("err",)
+                        and obs_t[1][2][0] == "ok" and obs_r[1][0] in SUPPORTED):
+                    # same content stored, but only the history run's raw body is rejected by the reference decoder:
+                    # classify like the absolute clause does (replayed foreign/empty raw out of the cache, or not)
+                    ctx.fail("raw-not-decodable:%s:%s" % (obs_r[1][0], real.rawclass(obs_r[1][0], m.raw_content)),
+                             "op %r stored raw body %r which the reference decoder rejects; with an empty cache -> %r"
+                             % (op, (m.raw_content or b"")[:40], obs_t))
+                    continue
                 ctx.fail("history-dependent:%s:%s:%s" % (k, str(coding).lower(), what),
                          "op %r: with the cache left by earlier calls -> %r; with an empty cache -> %r" % (op, obs_r, obs_t))
     finally:
